@@ -111,3 +111,29 @@ Proof.
   - apply String.eqb_eq in E. subst. intros [= ->]. auto.
   - auto.
 Qed.
+
+(* where a loop throws, some element test threw *)
+Lemma forall_res_throw {A} (p : A -> res bool) xs e :
+  forall_res p xs = Throw e -> exists x, In x xs /\ p x = Throw e.
+Proof.
+  induction xs as [|y ys IH]; cbn; [discriminate|].
+  destruct (p y) as [[|]|e'] eqn:E; try discriminate.
+  - intros H. destruct (IH H) as [x [Hin Hx]]. eauto.
+  - intros [= <-]. eauto.
+Qed.
+Lemma exists_res_throw {A} (p : A -> res bool) xs e :
+  exists_res p xs = Throw e -> exists x, In x xs /\ p x = Throw e.
+Proof.
+  induction xs as [|y ys IH]; cbn; [discriminate|].
+  destruct (p y) as [[|]|e'] eqn:E; try discriminate.
+  - intros H. destruct (IH H) as [x [Hin Hx]]. eauto.
+  - intros [= <-]. eauto.
+Qed.
+Lemma prefix_res_throw {A B} (p : A -> B -> res bool) d xs ps e :
+  forall idx, prefix_res p d xs ps idx = Throw e -> exists a b, In a ps /\ p a b = Throw e.
+Proof.
+  induction ps as [|a ps IH]; cbn; intros idx; [discriminate|].
+  destruct (p a (nth idx xs d)) as [[|]|e'] eqn:E; try discriminate.
+  - intros H. destruct (IH _ H) as [a' [b [Hin Hx]]]. eauto.
+  - intros [= <-]. eauto.
+Qed.
